@@ -34,7 +34,7 @@ Proof. exact serve_events. Qed.
 Print Assumptions C06_request.
 
 Example C06_example :
-  let f (id : string) pass := {| f_id := L id; f_pre := []; f_pass := pass; f_post := []; f_fresh := false |} in
+  let f (id : string) pass := {| f_id := L id; f_pre := []; f_pass := pass; f_post := []; f_fresh := false; f_mw := 0 |} in
   chain_events [f "c0"%string true; f "s0"%string true; f "r0"%string false; f "r1"%string true] [L "H:1"]
   = [L "pre:c0"; L "pre:s0"; L "pre:r0"; L "post:r0"; L "post:s0"; L "post:c0"]
   /\ chain_events [f "c0"%string true; f "s0"%string true] [L "H:1"]
